@@ -7,6 +7,7 @@ import (
 	"fmt"
 	"os"
 	"runtime"
+	"strconv"
 	"strings"
 	"testing"
 	"time"
@@ -80,12 +81,12 @@ var (
 	typeVals  = []interface{}{nil, 1, "s", 1.5, time.Second, errors.New("x"), []int{1}, map[string]int{}}
 	strsVals  = [][]string{nil, {}, {"a"}, {"a", "b\"c", ""}}
 	boolsVals = [][]bool{nil, {}, {true}, {true, false, true}}
-	intsVals  = [][]int{nil, {}, {1}, {-1, 0, 1 << 40}}
+	intsVals  = [][]int{nil, {}, {1}, {-1, 0, int(int64(1) << 40 >> (64 - strconv.IntSize))}} // 2^40 where int has 64 bits, 2^8 otherwise
 	ints8     = [][]int8{nil, {1, -128, 127}}
 	ints16    = [][]int16{nil, {1, -32768, 32767}}
 	ints32    = [][]int32{nil, {1, -1 << 31}}
 	ints64    = [][]int64{nil, {1, -1 << 63}}
-	uints     = [][]uint{nil, {1, 1 << 40}}
+	uints     = [][]uint{nil, {1, uint(uint64(1) << 40 >> (64 - strconv.IntSize))}}
 	uints8    = [][]uint8{nil, {1, 255}}
 	uints16   = [][]uint16{nil, {1, 65535}}
 	uints32   = [][]uint32{nil, {1, 1<<32 - 1}}
